@@ -53,9 +53,44 @@ def job_signal_disposition(res):
     res.obs.append(Ob('in all %d translation units the only call that touches signal handling is main\'s signal(SIGINT, Display::SIGINT_handler): the handler is never replaced, the signal never ignored or blocked (found: %s)' % (len(bld['ll']), [(a, b, c) for a, b, c, d in sites]),
                       'holds' if ok else 'violated', key='signal-disposition', detail='' if ok else str(sites[:4]), cex=None if ok else {'replay': 'structural', 'sites': [list(x) for x in sites[:4]]}))
 
+def _static_depends_on_args(bld, modname, gname):
+    """backward slice in the parsed IR: does any value stored into the global `gname` (or handed to a call together with its address) derive from a parameter of the enclosing function?"""
+    mod = load_module(bld, [modname])
+    for f in mod.funcs.values():
+        defs = {}; uses = []
+        for b in f.order:
+            for ins in f.blocks[b]:
+                if ins.get('dst'): defs[ins['dst']] = ins
+                txt = str(ins)
+                if ("'%s'" % gname in txt or "'%s@" % gname in txt) and '__cxa_guard' not in txt: uses.append(ins)
+        if not uses: continue
+        params = {nm for _, nm in f.params}
+        def operands(ins):
+            out = []
+            for k, v in ins.items():
+                if k in ('op', 'dst', 'ty', 'ty2', 'bty', 'line', 'callee'): continue
+                def walk(x):
+                    if isinstance(x, tuple) and len(x) >= 2 and x[0] == 'local': out.append(x[1])
+                    elif isinstance(x, (list, tuple)):
+                        for y in x: walk(y)
+                walk(v)
+            return out
+        seen = set(); work = []
+        for ins in uses:
+            if ins['op'] == 'load': continue      # reading the static is not initialising it
+            work += operands(ins)
+        while work:
+            v = work.pop()
+            if v in seen: continue
+            seen.add(v)
+            if v in params: return True
+            d = defs.get(v)
+            if d is not None: work += operands(d)
+    return False
+
 def job_process_state(res):
     """what an object computes must not depend on which object of the process came first: no translation unit of the program keeps hidden process-wide state - neither a function-local static inside a
-    vfps function (initialised once, by whichever object gets there first) nor a mutable file-scope static.  Census over the IR of every translation unit (class statics such as PhaseSpace::nx or
+    vfps function whose initial value depends on the arguments of the call that happens to come first (`this` included) nor a mutable file-scope static.  Census over the IR of every translation unit (class statics such as PhaseSpace::nx or
     Display::abort are declared interface, not hidden state)."""
     bld = all_build(); import re as _re
     found = []
@@ -67,8 +102,10 @@ def job_process_state(res):
             g, body = ln.split(' = ', 1)
             if 'declare' in body[:10] or body.lstrip().startswith('external'): continue
             const = _re.search(r'\bconstant\b', body.split('{')[0].split('[')[0][:120]) is not None
-            if '_ZZN4vfps' in g or '_ZGVZN4vfps' in g or '_ZZN12_GLOBAL__N_1' in g:
-                if not const: found.append((name, g.strip('@ ')[:120], 'function-local static'))
+            if '_ZZN4vfps' in g or '_ZZN12_GLOBAL__N_1' in g:
+                # initialised once, by whichever call gets there first: hidden state iff what is stored depends on that call's arguments (`this` included); a table computed from constants only is not
+                if not const and _static_depends_on_args(bld, name, g.strip().lstrip('@').strip('"')): found.append((name, g.strip('@ ')[:120], 'function-local static initialised from the arguments of the first call'))
+            elif '_ZGVZ' in g: pass
             elif _re.match(r'@(_ZL|_ZN4vfpsL|_ZN12_GLOBAL__N_1)', g) and not const and 'comdat' not in body[:40]:
                 found.append((name, g.strip('@ ')[:120], 'file-scope static'))
         res.instrs += n
